@@ -11,6 +11,9 @@ use crate::gen::{self, Profile, HDR_ALPHABET, START_ALPHABET, CHUNK_ALPHABET};
 use crate::real::*;
 
 pub fn check(r: &Runner, ctx: &mut Ctx, l: &mut Local, rec: &CaseRec) -> Result<(), Violation> {
+    if rec.sub == "memcheck" {
+        return check_memcheck_case(r, l, rec);
+    }
     let hdr_at_end = rec.aux.first().copied().unwrap_or(1) != 0;
     let prefill = if rec.aux.get(1).copied().unwrap_or(0) != 0 { Prefill::Sentinel } else { Prefill::Empty };
     let obs = ctx.run(&Spec {
@@ -81,7 +84,168 @@ pub const RAMP_BASES: [(&[u8], Entry, u8); 10] = [
     (b"HTTP/1.0 404 Not Found\r\nA: b\r\nC: d\r\nE: f\r\nG: h\r\nI: j\r\n\r\n", Entry::RespCfgUninit, C_IGNORE_RESP),
 ];
 
+fn memcheck_run(bin: &std::path::Path, cases: &[CaseRec], tag: &str) -> Result<(Option<i32>, String), String> {
+    let dir = format!("{}/target/c01", crate::verif_dir());
+    let _ = std::fs::create_dir_all(&dir);
+    let corpus = format!("{}/memcheck-{}.bin", dir, tag);
+    super::p_variants::write_corpus(&corpus, cases);
+    let out = std::process::Command::new("valgrind")
+        .args(["--tool=memcheck", "-q", "--error-exitcode=9", "--redzone-size=128", "--leak-check=no", "--undef-value-errors=no"])
+        .arg(bin)
+        .arg("--exact")
+        .arg(&corpus)
+        .stdout(std::process::Stdio::null())
+        .output();
+    let _ = std::fs::remove_file(&corpus);
+    match out {
+        Ok(o) => Ok((o.status.code(), String::from_utf8_lossy(&o.stderr).to_string())),
+        Err(e) => Err(e.to_string()),
+    }
+}
+
+fn memcheck_bad(res: &Result<(Option<i32>, String), String>) -> bool {
+    matches!(res, Ok((code, err)) if *code == Some(9) || err.contains("Invalid read") || err.contains("Invalid write"))
+}
+
+/// replay of one memcheck case: rec.bufs[0] = variant name
+fn check_memcheck_case(r: &Runner, l: &mut Local, rec: &CaseRec) -> Result<(), Violation> {
+    let name = rec.bufs.first().map(|b| String::from_utf8_lossy(b).to_string()).unwrap_or_else(|| "runtime".into());
+    let v = match super::p_variants::VARIANTS.iter().find(|v| v.name == name) {
+        Some(v) => v,
+        None => return Ok(()),
+    };
+    let bin = match super::p_variants::build_variant(v) {
+        Ok(b) => b,
+        Err((_, m)) => {
+            r.inconclusive.lock().unwrap().push(format!("cannot build vdigest variant {}: {}", name, m));
+            return Ok(());
+        }
+    };
+    let mut one = rec.clone();
+    one.bufs.clear();
+    let res = memcheck_run(&bin, &[one], &format!("replay{}", std::process::id()));
+    if memcheck_bad(&res) {
+        let err = res.unwrap().1;
+        let first = err.lines().filter(|l| l.contains("Invalid") || l.contains("at 0x") || l.contains("by 0x") || l.contains("Address")).take(6).collect::<Vec<_>>().join(" | ");
+        return Err(Violation::new(
+            format!("C01/memcheck/{}", if err.contains("Invalid write") { "invalid-write" } else { "invalid-read" }),
+            format!("valgrind memcheck, production vdigest build `{}`, buffer and header array in exact-size heap allocations: {}", name, first),
+            rec,
+        ));
+    }
+    r.account(l, rec, true, "memcheck case");
+    Ok(())
+}
+
+/// valgrind memcheck on the production build of vdigest with every buffer (and header array)
+/// in its own exact-size heap allocation: sees reads past the end of the buffer that stay
+/// inside the page (which guard pages cannot see) and that go through vector-load intrinsics
+/// (which ASan does not instrument).
+fn memcheck_phase(r: &Runner) {
+    use std::process::Command;
+    let t0 = std::time::Instant::now();
+    if Command::new("valgrind").arg("--version").output().is_err() {
+        r.inconclusive.lock().unwrap().push("valgrind not available".into());
+        return;
+    }
+    let names: &[&str] = if r.quick() { &["runtime", "ct-sse42"] } else { &["runtime", "ct-sse42", "simd-disabled", "ct-avx2", "no_std"] };
+    // corpus: every prefix of the ramp bases (every tail length of every scanner) + G1 cases
+    let mut cases: Vec<CaseRec> = vec![];
+    for (base, entry, cfg) in RAMP_BASES.iter() {
+        for k in 0..=base.len() {
+            cases.push(CaseRec::new("memcheck", *entry, *cfg, 8, base[..k].to_vec()));
+        }
+    }
+    for len in 0..=140usize {
+        let mut f = Vec::new();
+        gen::fill(&mut f, len, 0, len as u16);
+        cases.push(CaseRec::new("memcheck", Entry::ReqParse, 0, 4, [&b"GET /"[..], &f, b" HTTP/1.1\r\n\r\n"].concat()));
+        cases.push(CaseRec::new("memcheck", Entry::ReqParse, 0, 4, [&b"GET /"[..], &f].concat()));
+        cases.push(CaseRec::new("memcheck", Entry::Headers, 0, 4, [&b"N: "[..], &f, b"\r\n\r\n"].concat()));
+        cases.push(CaseRec::new("memcheck", Entry::Headers, 0, 4, [&b"N: "[..], &f].concat()));
+        cases.push(CaseRec::new("memcheck", Entry::Headers, 0, 4, f.clone()));
+        cases.push(CaseRec::new("memcheck", Entry::RespParse, 0, 4, [&b"HTTP/1.1 200 "[..], &f].concat()));
+    }
+    {
+        use proptest::strategy::{Strategy, ValueTree};
+        use proptest::test_runner::{Config, RngSeed, TestRunner};
+        static K: [Kind; 4] = ALL_KINDS;
+        let g = GenSpec { kinds: &K, profile: Profile::DEFAULT, generous_cap: false, cfg_mask: 0x7f, cfg_entry_only: false };
+        let mut runner = TestRunner::new(Config { rng_seed: RngSeed::Fixed(r.seed ^ 0xC01), failure_persistence: None, ..Config::default() });
+        let strat = proptest::collection::vec(proptest::num::u8::ANY, 0..=170usize);
+        for _ in 0..r.amount(6000, 60000) {
+            let bytes = strat.new_tree(&mut runner).unwrap().current();
+            let mut u = Choice::new(&bytes);
+            cases.push(g1_case(&mut u, "memcheck", &g));
+        }
+    }
+    let results = std::sync::Mutex::new(vec![]);
+    std::thread::scope(|s| {
+        for name in names {
+            let results = &results;
+            let cases = &cases;
+            s.spawn(move || {
+                let v = super::p_variants::VARIANTS.iter().find(|v| v.name == *name).unwrap();
+                let bin = match super::p_variants::build_variant(v) {
+                    Ok(b) => b,
+                    Err((_, m)) => {
+                        results.lock().unwrap().push((name.to_string(), Err(format!("build failed: {}", m)), None));
+                        return;
+                    }
+                };
+                let res = memcheck_run(&bin, cases, name);
+                let mut culprit = None;
+                if memcheck_bad(&res) {
+                    // bisect the corpus down to one case
+                    let (mut lo, mut hi) = (0usize, cases.len());
+                    while hi - lo > 1 {
+                        let mid = (lo + hi) / 2;
+                        if memcheck_bad(&memcheck_run(&bin, &cases[lo..mid], &format!("{}-bisect", name))) {
+                            hi = mid;
+                        } else {
+                            lo = mid;
+                        }
+                    }
+                    culprit = Some(lo);
+                }
+                results.lock().unwrap().push((name.to_string(), res, culprit));
+            });
+        }
+    });
+    for (name, res, culprit) in results.into_inner().unwrap() {
+        match res {
+            Ok((Some(0), _)) => {
+                r.stats.hist.lock().unwrap().insert(format!("memcheck clean: vdigest variant {}", name), cases.len() as u64);
+            }
+            Ok((code, err)) => {
+                if memcheck_bad(&Ok((code, err.clone()))) {
+                    let mut rec = cases[culprit.unwrap_or(0)].clone();
+                    rec.bufs = vec![name.as_bytes().to_vec()];
+                    let mut l = Local::default();
+                    match check_memcheck_case(r, &mut l, &rec) {
+                        Err(v) => {
+                            r.report(v);
+                        }
+                        Ok(()) => r.inconclusive.lock().unwrap().push(format!("memcheck reported errors for variant {} on the corpus but not on the bisected case", name)),
+                    }
+                } else {
+                    r.inconclusive.lock().unwrap().push(format!("memcheck run of variant {} ended with {:?}: {}", name, code, err.lines().last().unwrap_or("")));
+                }
+            }
+            Err(e) => r.inconclusive.lock().unwrap().push(format!("memcheck variant {}: {}", name, e)),
+        }
+    }
+    r.stats.evals.fetch_add((cases.len() * names.len()) as u64, std::sync::atomic::Ordering::Relaxed);
+    r.phase_done(&format!("valgrind memcheck: {} cases (every prefix of 10 bases, fields of every length 0..=140 cut and uncut, G1) × vdigest variants {:?}, each buffer and header array an exact-size heap allocation", cases.len(), names), (cases.len() * names.len()) as u64, false, t0);
+}
+
 pub fn run(r: &Runner) {
+    if !cfg!(debug_assertions) {
+        memcheck_phase(r);
+        if r.stopped() {
+            return;
+        }
+    }
     static K: [Kind; 4] = ALL_KINDS;
     let backends = usable_backends();
     for &be in &backends {
@@ -180,8 +344,10 @@ pub fn run(r: &Runner) {
         });
         // G5 scale families
         let sizes: &[usize] = if r.quick() { &[1 << 10, 1 << 13, 1 << 16, 1 << 18] } else { &[1 << 10, 1 << 12, 1 << 14, 1 << 16, 1 << 18, 1 << 20] };
-        let total = gen::N_FAMILIES as u64 * sizes.len() as u64 * 4;
-        r.par_enum(&format!("scale families: {} adversarial families × sizes up to {} KiB × {{whole, truncated, late error, +jitter}}, backend {}", gen::N_FAMILIES, sizes.last().unwrap() >> 10, backend_name(be)), total, |ctx, l, idx| {
+        let total = gen::N_FAMILIES as u64 * sizes.len() as u64 * 4 * 2;
+        r.par_enum(&format!("scale families: {} adversarial families × sizes up to {} KiB × {{whole, truncated, late error, +jitter}} × {{small capacity, capacity 400000}}, backend {}", gen::N_FAMILIES, sizes.last().unwrap() >> 10, backend_name(be)), total, |ctx, l, idx| {
+            let huge_cap = idx % 2 == 1;
+            let idx = idx / 2;
             let var = idx % 4;
             let x = idx / 4;
             let f = (x % gen::N_FAMILIES as u64) as usize;
@@ -199,7 +365,9 @@ pub fn run(r: &Runner) {
                 }
                 _ => {}
             }
-            let mut rec = CaseRec::new("total", entry, cfg, [0usize, 4, 64, 1000][rng.below(4)], buf);
+            // capacity: small (TooManyHeaders paths) or larger than any header count reachable here
+            let cap = if huge_cap { 400_000 } else { [0usize, 4, 64, 1000][rng.below(4)] };
+            let mut rec = CaseRec::new("total", entry, cfg, cap, buf);
             rec.place = if rng.below(3) == 0 { Placement::Start } else { Placement::End };
             rec.backend = be;
             check(r, ctx, l, &rec)
